@@ -5,9 +5,9 @@ set -u
 id=$1; wt=${2:-/tmp/seed/$id}
 cd "$wt" || exit 2
 T="tests/tel2puml/otel_to_pv tests/tel2puml/test_utils.py tests/tel2puml/test_tel2puml_types.py"
-echo "== demo with change"; PYTHONPATH=${SEED_PYTHONPATH:-} /venv/bin/python _seed/demo.py 2>&1 | grep -v conda.cli | tail -5; echo "rc=${PIPESTATUS[0]}"
+echo "== demo with change"; PYTHONPATH=${SEED_PYTHONPATH:-/tmp/seed/shim} /venv/bin/python _seed/demo.py 2>&1 | grep -v conda.cli | tail -5; echo "rc=${PIPESTATUS[0]}"
 echo "== tests with change"; /venv/bin/python -m pytest -q -p no:cacheprovider --timeout=900 --continue-on-collection-errors $T 2>&1 | tail -1
 git diff -- tel2puml > /tmp/.confirm_$id.diff; git apply -R /tmp/.confirm_$id.diff
-echo "== demo without change"; PYTHONPATH=${SEED_PYTHONPATH:-} /venv/bin/python _seed/demo.py 2>&1 | grep -v conda.cli | tail -3; echo "rc=${PIPESTATUS[0]}"
+echo "== demo without change"; PYTHONPATH=${SEED_PYTHONPATH:-/tmp/seed/shim} /venv/bin/python _seed/demo.py 2>&1 | grep -v conda.cli | tail -3; echo "rc=${PIPESTATUS[0]}"
 git apply /tmp/.confirm_$id.diff; rm -f /tmp/.confirm_$id.diff
 git diff --stat -- tel2puml | cat
